@@ -16,7 +16,6 @@ RULE = ("SQ: all strings of length <= L over a 16-symbol class alphabet x 9 quot
         "mode, predicate c01_pred on the observation (ASCII string form, upper-case escapes, per-component RFC alphabet, "
         "bytes()); distinct = distinct request; non-trivial = result is a URL / output differs from input")
 
-KF = [("F20", "kf_f20"), ("F22", "kf_f22")]
 
 
 def run(ctx):
@@ -29,5 +28,5 @@ def run(ctx):
     progs = [f["witness"] for f in ctx.findings if f.get("witness")] + [p for p in progs if suites.is_autoenc(p)]
     outs = suites.observe(ctx, "C01-programs", progs, profile=0)
     suites.apply_pred(ctx, "C01-programs", "c01_pred", outs, lambda k, i: outs[k][i],
-                      lambda k, i: {"program": progs[i], "impl": outs[k][i]}, kf=KF,
+                      lambda k, i: {"program": progs[i], "impl": outs[k][i]}, kf=core.kf_list(ctx),
                       select=lambda k, i: outs[k][i].startswith("["))
